@@ -194,7 +194,7 @@ def check(prog, res, tier):
     unwrapped, wrapped = 0, 0
     for runs in ipm_runs:
         for p in runs.inv:
-            caught = [e for e in p.evs('caught') if exc_key(e.data['exc'].cls) == lib and e.func == ipm_next.short]
+            caught = [e for e in p.evs('caught') if exc_key(e.data['exc'].cls) == lib and e.under(ipm_next.short)]
             if caught and p.outcome == 'raise' and exc_key(p.value.cls) == mlib:
                 wrapped += 1
             if p.outcome == 'raise' and exc_key(p.value.cls) == lib:
